@@ -19,6 +19,9 @@ use crate::{
 /// If the input types are not supported.
 pub fn mod_exp_offcircuit(x: &IrValue, n: u64, m: &IrValue) -> Result<IrValue, Error> {
     match (x, m) {
+        (IrValue::BigUint(_), IrValue::BigUint(m)) if m.bits() == 0 => Err(Error::Other(
+            "modular exponentiation with modulus zero".into(),
+        )),
         (IrValue::BigUint(x), IrValue::BigUint(m)) => Ok(x.modpow(&BigUint::from(n), m).into()),
         _ => Err(Error::Unsupported(
             Operation::ModExp(n),
